@@ -31,6 +31,13 @@ var quickDFS = []config{
 	{0, [][]string{p("u11", "u12"), p("o", "o")}},
 	{0, [][]string{p("u11", "o"), p("u21", "o"), p("l", "l")}},
 	{1, [][]string{p("u11", "o"), p("o", "u21"), p("o", "l")}},
+	// PopWait: `w` = PopWait(-1) spins (Pop, Gosched) until a push is published,
+	// `z` = PopWait(0) is one Pop.  Every `w` is guaranteed a value (see feasible).
+	{0, [][]string{p("w"), p("u11")}},
+	{1, [][]string{p("w"), p("u11"), p("o")}},
+	{1, [][]string{p("z"), p("o"), p("u11")}},
+	{0, [][]string{p("w", "w"), p("u11", "u12")}},
+	{3, [][]string{p("w", "u11"), p("w", "z")}},
 }
 
 var thoroughDFS = []config{
@@ -39,6 +46,55 @@ var thoroughDFS = []config{
 	{0, [][]string{p("u11"), p("u21"), p("o"), p("o")}},
 	{2, [][]string{p("o", "u11"), p("o", "u21"), p("o", "l"), p("u41", "o")}},
 	{0, [][]string{p("u11", "u12", "u13"), p("o", "o", "o"), p("o", "u31", "l"), p("l", "u41", "o")}},
+	{0, [][]string{p("w", "z"), p("u11", "u12"), p("w", "l"), p("u41")}},
+	{1, [][]string{p("w", "u11"), p("u21", "w"), p("o", "u31")}},
+}
+
+// feasible: every PopWait(-1) eventually finds a value under round-robin completion.
+// Supply = initial values + the pushes that are not behind a `w` in their own thread
+// (those complete whatever the poppers do); demand = every popping call.
+func feasible(ninit int, progs [][]string) bool {
+	supply, demand, waits := ninit, 0, 0
+	defer func() { _ = waits }()
+	for _, pr := range progs {
+		for _, c := range pr {
+			if c == "w" {
+				waits++
+			}
+		}
+	}
+	if waits == 0 {
+		return true
+	}
+	for _, pr := range progs {
+		blocked := false
+		for _, c := range pr {
+			switch {
+			case c == "w":
+				blocked = true
+				demand++
+			case c == "o" || c == "z":
+				demand++
+			case strings.HasPrefix(c, "u") && !blocked:
+				supply++
+			}
+		}
+	}
+	return demand <= supply
+}
+
+// makeFeasible turns blocking PopWaits into PopWait(0) (last first) until feasible.
+func makeFeasible(ninit int, progs [][]string) {
+	for t := len(progs) - 1; t >= 0; t-- {
+		for k := len(progs[t]) - 1; k >= 0; k-- {
+			if feasible(ninit, progs) {
+				return
+			}
+			if progs[t][k] == "w" {
+				progs[t][k] = "z"
+			}
+		}
+	}
 }
 
 // the F7 witness (DESIGN §6): push links and publishes, a pop completes, Len() == -1
@@ -59,6 +115,19 @@ func corpus() []core.Case {
 		{Tag: "corpus", Lines: []string{"@ C11 list 0 T u5 T u6", "step 0", "step 0", "step 0", "step 1", "step 1", "step 1", "step 1", "step 1", "step 0", "step 0", "drain", "final"}},
 		// schedule lines for finished / non-existent threads, pending calls at the end
 		{Tag: "corpus", Lines: []string{"@ C11 list 1 T o T u9", "step 0", "step 5", "step 1", "step 0", "final", "step 0", "step 0", "step 0", "step 0", "final"}},
+		// PopWait(-1) on an empty list spins (ld head, ld tail, Gosched) and stays pending
+		{Tag: "corpus", Lines: []string{"@ C11 list 0 T w", "step 0", "step 0", "step 0", "step 0", "step 0", "step 0", "step 0", "final"}},
+		// PopWait(-1) spins while the node is linked but not published, pops after the publication
+		{Tag: "corpus", Lines: []string{"@ C11 list 0 T w T u5", "step 1", "step 1", "step 1", "step 0", "step 0", "step 0", "step 1", "step 0", "step 0", "step 1", "drain", "final"}},
+		// PopWait(-1) loses the head CAS to a Pop and retries; PopWait(0) on an empty list returns false
+		// (fully explicit schedule: with a `drain` the Pop and the PopWait(0) could starve the PopWait(-1))
+		{Tag: "corpus", Lines: []string{"@ C11 list 2 T w T o T z", "step 0", "step 0", "step 0", "step 1", "step 1", "step 1", "step 1", "step 1",
+			"step 0", "step 0", "step 0", "step 0", "step 0", "step 0", "step 0", "step 2", "step 2", "final"}},
+	}
+	for _, cfg := range append(append([]config{}, quickDFS...), thoroughDFS...) {
+		if !feasible(cfg.ninit, cfg.progs) {
+			panic("c11: DFS configuration with a PopWait(-1) that may block forever")
+		}
 	}
 	tier := tierFromArgs()
 	cfgs := quickDFS
@@ -91,18 +160,23 @@ func gen(r *core.Rand, tier string) core.Case {
 		var prog []string
 		n := r.Range(1, maxOps)
 		for k := 0; k < n; k++ {
-			switch r.Pick(45, 40, 15) {
+			switch r.Pick(45, 28, 12, 8, 7) {
 			case 0:
 				prog = append(prog, fmt.Sprintf("u%d", 100*(t+1)+k))
 			case 1:
 				prog = append(prog, "o")
-			default:
+			case 2:
 				prog = append(prog, "l")
+			case 3:
+				prog = append(prog, "w")
+			default:
+				prog = append(prog, "z")
 			}
 		}
 		total += n
 		cfg.progs = append(cfg.progs, prog)
 	}
+	makeFeasible(cfg.ninit, cfg.progs)
 	mode := r.Pick(30, 35, 35)
 	lines := drive.Sample(factory(cfg.ninit, cfg.progs), r, mode, 10*total+12)
 	tag := []string{"random-walk", "sticky-walk", "pct"}[mode]
